@@ -77,6 +77,11 @@ def scenarios(tier):
                 origins=og, dns={'adv.test': '10.0.0.9', 'up1.test': '10.0.0.8'}, kinds='', horizon=900,
                 min_time=4.0,
                 features={'mode': mode, 'role': 'idle', 'history': name, 'repetitions': 1}, setup=_setup))
+    # work initialisation failure (TLS front, client botches the handshake): nothing may stay behind
+    for sc in c05.tls_front_scenarios(tier):
+        sc.setup = _setup
+        sc.features = {'mode': sc.mode, 'role': 'tls_front', 'history': sc.features['adversary'], 'repetitions': 3}
+        out.append(sc)
     return out
 
 
